@@ -26,7 +26,8 @@ RULE = ('correspondence: colour lists of 1-20 random colours (repeated / extreme
         'too many}, continuous and segmented, values at every stop, dyadic fractions between stops, just '
         'inside/outside the ends, far outside; legends: values x (min/max given | default) x segment count '
         '(1-20 | default) x vertical/horizontal x gradient/discrete x ordinal dictionary x categorised '
-        'parameters x segment dimensions; exact stream compared bit for bit, float stream with the '
+        'parameters x segment dimensions; the full default-resolution grid (data all-equal/varying x bounds '
+        'neither/min/max/both/min==max x count default/given x plain/categorised) on every run; exact stream compared bit for bit, float stream with the '
         'near-tie rule; oracle: the statement of C15 on the real classes; a case is non-trivial when the '
         'constructor accepts it; distinct = distinct (op, request line)')
 TRUSTED_BASE = [
@@ -555,10 +556,85 @@ def gen_color_float(ctx, rng):
 NAME_POOL = ['low', 'ok', 'high', 'Cold', 'Cool', 'Neutral', 'Warm', 'Hot', 'A', 'B', 'c-1', 'x_y', '10%']
 
 
+DEFAULT_GRID = [(data, bounds, given_count, cat)
+                for data in ('equal', 'varying')
+                for bounds in ('neither', 'min', 'max', 'both', 'both_equal')
+                for given_count in (False, True)
+                for cat in (False, True)]
+
+
+def gen_legend_defaults(ctx, rng, exact, cell=None):
+    """Default resolution of `Legend.__init__`, as a full grid:
+    data {all equal | varying} x bounds {neither | min only | max only | both | both with min == max}
+    x segment_count {default | given} x {plain | categorised}; the given bounds lie on, below or above
+    the data.  The single-segment default depends on the *resolved* min/max, not on the data."""
+    data, bounds, given_count, cat = cell if cell is not None else rng.choice(DEFAULT_GRID)
+    c = {'kind': 'cat' if cat else 'plain', 'cl': rng.random() < 0.3, 'vert': rng.random() < 0.6,
+         'dc': 2, 'sh': None, 'sw': None, 'th': None}
+    ctx.count('legend:defaults:%s:%s:%s:%s' % (data, bounds, 'count' if given_count else 'default',
+                                                'cat' if cat else 'plain'))
+    base = float(rng.randrange(-40, 40)) * rng.choice([1, 0.5, 0.25])
+    if data == 'equal':
+        vals = [base] * rng.randrange(1, 5)
+    else:
+        vals = [base + rng.randrange(0, 64) * 0.25 for _ in range(rng.randrange(2, 7))]
+        vals[0], vals[-1] = base, base + 16.0
+    lo, hi = min(vals), max(vals)
+    if cat:
+        # categorised parameters take min/max/count from their own domain, never from the data
+        m = rng.choice([1, 2, 3])
+        dom = sorted(set(base + rng.randrange(-8, 24) * 0.5 for _ in range(m)))
+        if len(dom) == 1 and any(v == dom[0] for v in vals):
+            dom = [dom[0] - 0.125]                         # keep off the one-boundary finding
+        c.update({'dom': dom, 'cols': gen_colors(rng, len(dom) + 1), 'names': None, 'cc': False,
+                  'ils': None, 'vals': vals, 'exact': True})
+        return c
+    n = rng.choice([2, 3, 5, 6, 9, 11])
+    cols = gen_colors(rng, n)
+    use_default_cols = rng.random() < 0.25
+    c['cols'] = None if use_default_cols else cols
+    if use_default_cols:
+        n = 10
+    where = rng.choice(['on', 'off', 'off'])              # given bound = data extreme, or not
+    step = 2.0 ** rng.randrange(-1, 3)
+    gmin = lo if where == 'on' else lo - (n - 1) * step * rng.choice([1, 2])
+    gmax = hi if where == 'on' else hi + (n - 1) * step * rng.choice([1, 2])
+    c['min'] = c['max'] = None
+    if bounds == 'min':
+        c['min'] = gmin
+    elif bounds == 'max':
+        c['max'] = gmax
+    elif bounds == 'both':
+        c['min'], c['max'] = gmin, gmax
+    elif bounds == 'both_equal':
+        z = rng.choice([lo, hi, (lo + hi) / 2, lo - 1.0, hi + 1.0])
+        c['min'] = c['max'] = z
+    if rng.random() < 0.04 and bounds in ('min', 'max'):
+        # data on the wrong side of the single given bound: rejected by the setter
+        if bounds == 'min':
+            c['min'] = hi + 1.0
+        else:
+            c['max'] = lo - 1.0
+    c['count'] = rng.choice([1, 2, 3, 5, 9, 11, 17]) if given_count else None
+    c['vals'] = vals
+    c['ils'] = False
+    c['ord'] = None
+    rmin = c['min'] if c['min'] is not None else lo
+    rmax = c['max'] if c['max'] is not None else hi
+    cnt = c['count'] if c['count'] is not None else 11
+    width = Fraction(rmax) - Fraction(rmin)
+    # float arithmetic is exact when the colour step and the segment step are dyadic with few bits
+    c['exact'] = bool(exact and (width == 0 or (
+        (n - 1) in (1, 2, 4, 8, 16) and (cnt - 1) in (0, 1, 2, 4, 8, 16))))
+    return c
+
+
 def gen_legend(ctx, rng, exact, rare_known=False):
     """One legend case.  `rare_known`: visit the regions of the recorded findings (one-boundary
     categorised legends hit exactly at the boundary, inexact label steps) only rarely, so that the
     oracle's failure budget is not used up by them."""
+    if rng.random() < 0.2:
+        return gen_legend_defaults(ctx, rng, exact)
     cat = rng.random() < 0.3
     c = {'exact': exact, 'kind': 'cat' if cat else 'plain'}
     c['cl'] = rng.random() < 0.4
@@ -730,6 +806,12 @@ def correspondence(ctx):
     compare_color_float(ctx, [gen_color_float(ctx, rng) for _ in range(ctx.n(2500, 25000))])
     # legends
     cases = [gen_legend(ctx, rng, True) for _ in range(ctx.n(3000, 25000))]
+    for cell in DEFAULT_GRID:                              # every cell of the default-resolution grid
+        for _ in range(ctx.n(6, 40)):
+            cases.append(gen_legend_defaults(ctx, rng, True, cell))
+    for op, inp in CORPUS:
+        if op == 'legend':
+            cases.append(_full_legend_case(inp))
     cases += [gen_legend(ctx, rng, False) for _ in range(ctx.n(2000, 20000))]
     compare_legend(ctx, cases)
     # '%.nf' formatting of exact values
@@ -865,6 +947,23 @@ def check_range(inp):
     return None
 
 
+def _full_legend_case(inp):
+    """A corpus legend with every protocol field filled in (tolerant comparison)."""
+    c = dict(inp)
+    c.setdefault('exact', False)
+    for k in ('min', 'max', 'count', 'cols', 'ord', 'sh', 'sw', 'th', 'names', 'cc', 'ils'):
+        c.setdefault(k, None)
+    if c['kind'] == 'plain' and c['ils'] is None:
+        c['ils'] = False
+    if c.get('cols') is not None:
+        c['cols'] = [tuple(x) for x in c['cols']]
+    if c.get('ord') is not None:
+        c['ord'] = [tuple(x) for x in c['ord']]
+    if c.get('names') is not None:
+        c['names'] = [x.replace(' ', '_') for x in c['names']]     # tokens of the line protocol
+    return c
+
+
 def check_legend(inp):
     from ladybug.legend import Legend, LegendParametersCategorized
     from ladybug.graphic import GraphicContainer
@@ -902,6 +1001,18 @@ def check_legend(inp):
                 return fail('single_value', (1, (vals[0],)), (n, tuple(lg.segment_numbers)))
         if c['count'] is not None and n != c['count']:
             return fail('segment_count', c['count'], n)
+        if c['min'] is not None and par.min != c['min']:
+            return fail('given_min', c['min'], par.min)
+        if c['max'] is not None and par.max != c['max']:
+            return fail('given_max', c['max'], par.max)
+        if c['count'] is None:
+            # a defaulted count is 11, or 1 for a legend that describes a single value, i.e. whose
+            # resolved minimum and maximum coincide (not: whose data happen to be constant)
+            want = 1 if par.min == par.max else 11
+            if n != want:
+                return fail('default_segment_count', want, n,
+                            data='equal' if min(vals) == max(vals) else 'varying',
+                            bounds=('min' if c['min'] is not None else '') + ('max' if c['max'] is not None else ''))
     else:
         dom = sorted(float(x) for x in c['dom'])
         if (par.min, par.max, n) != (dom[0], dom[-1], len(dom) + 1):
@@ -1016,6 +1127,21 @@ CORPUS = [
     ('legend', {'kind': 'cat', 'vals': [100, 300, 500, 1000, 2000, 3000], 'dom': [300, 2000],
                 'cols': [[0, 0, 255], [0, 255, 0], [255, 0, 0]], 'names': ['low', 'desired', 'too much'],
                 'cc': False, 'cl': False, 'vert': True, 'dc': 2}),
+    # default resolution: constant data on explicit scales, varying data on a zero-width scale
+    ('legend', {'kind': 'plain', 'vals': [5, 5, 5, 5], 'min': 0, 'max': 10, 'cl': False, 'vert': True, 'dc': 2}),
+    ('legend', {'kind': 'plain', 'vals': [5, 5, 5, 5], 'min': 0, 'cl': False, 'vert': True, 'dc': 2}),
+    ('legend', {'kind': 'plain', 'vals': [5, 5, 5, 5], 'max': 10, 'cl': True, 'vert': False, 'dc': 2}),
+    ('legend', {'kind': 'plain', 'vals': [5, 5, 5, 5], 'min': 5, 'max': 5, 'cl': False, 'vert': True, 'dc': 2}),
+    ('legend', {'kind': 'plain', 'vals': [5, 5, 5, 5], 'min': 5, 'cl': False, 'vert': True, 'dc': 2}),
+    ('legend', {'kind': 'plain', 'vals': [5, 5, 5, 5], 'min': 0, 'max': 10, 'count': 4, 'cl': False,
+                'vert': True, 'dc': 2}),
+    ('legend', {'kind': 'plain', 'vals': [1, 2, 3, 4], 'min': 2, 'max': 2, 'cl': False, 'vert': True, 'dc': 2}),
+    ('legend', {'kind': 'plain', 'vals': [1, 2, 3, 4], 'min': 2, 'max': 2, 'count': 5, 'cl': False,
+                'vert': True, 'dc': 2}),
+    ('legend', {'kind': 'plain', 'vals': [1, 2, 3, 4], 'min': 1, 'cl': False, 'vert': True, 'dc': 2}),
+    ('legend', {'kind': 'plain', 'vals': [1, 2, 3, 4], 'max': 4, 'cl': False, 'vert': False, 'dc': 2}),
+    ('legend', {'kind': 'cat', 'vals': [5, 5, 5], 'dom': [2, 8], 'cols': [[0, 0, 255], [0, 255, 0], [255, 0, 0]],
+                'cl': False, 'vert': True, 'dc': 2}),
     ('legend', {'kind': 'cat', 'vals': [50, 100, 150], 'dom': [100], 'cols': [[0, 0, 255], [0, 255, 0]],
                 'cl': False, 'vert': True, 'dc': 2}),                                      # known finding
     ('legend', {'kind': 'plain', 'vals': [0, 5], 'min': 0, 'max': 5, 'count': 6, 'cl': False,
@@ -1066,6 +1192,13 @@ def _oracle_cases(ctx):
         ctx.count('oracle_range:%s:%d_stops' % ('cont' if cont else 'seg', min(len(dom), 3)))
         yield 'range', {'cols': cols, 'dom': dom, 'cont': cont, 'probes': 50 if rng.random() < 0.3 else 12,
                         't': rng.random()}
+    for cell in DEFAULT_GRID:
+        for _ in range(30 if big else 5):
+            c = gen_legend_defaults(ctx, rng, False, cell)
+            c = {k: v for k, v in c.items() if k != 'exact'}
+            if c.get('cols') is not None:
+                c['cols'] = [list(x) for x in c['cols']]
+            yield 'legend', c
     for _ in range(8000 if big else 1500):
         c = gen_legend(ctx, rng, rng.random() < 0.4, rare_known=True)
         c = {k: v for k, v in c.items() if k != 'exact'}
